@@ -100,7 +100,8 @@ func (self *Node) MarshalJSON() ([]byte, error) {
 	if self.isRaw() {
 		lock := self.rlock()
 		if self.isRaw() {
-			ret := rt.Str2Mem(self.toString())
+			// the caller owns the result: it must not alias the node's source text
+			ret := []byte(self.toString())
 			if lock {
 				self.runlock()
 			}
